@@ -101,7 +101,7 @@ unsafe impl BufMut for Vec<u8> {
 
 /// capacity of every `BytesMut` in the verification build; appends never reallocate
 #[cfg(kani)]
-pub const CAPB: usize = 32;
+pub const CAPB: usize = 40;
 #[cfg(not(kani))]
 pub const CAPB: usize = 4096;
 
